@@ -3,6 +3,7 @@ import VelaVerif.Model.Caches
 import VelaVerif.Gen.Caches
 import VelaVerif.Lemmas.Caches
 import VelaVerif.Lemmas.EmitOrder
+import VelaVerif.Lemmas.KeyRename
 /-!
 # C14 — compilation is deterministic and independent of process history
 
@@ -267,6 +268,21 @@ inspect a key), so a different seed renames it consistently within a process. -/
 theorem hash_only_as_key :
     Gen.Caches.hashSites = [("data_type", "DataType.__hash__"), ("weight_compressor", "encode_weight_and_scale_tensor")] ∧
     "ofm_depth_step" ∈ Gen.Caches.wccFields := by decide
+
+/-- **hash_only_as_key, in the model.** Renumbering the literal atoms of every key (the `hash(str(depth_offsets))` field
+among them) with any injective function changes no output, after any history and through any entry point: a
+compilation only compares keys. Another `PYTHONHASHSEED` is such a renumbering, up to hash collisions (2⁻⁶⁴ per pair,
+outside the model). -/
+theorem key_literals_only_compared {ρ ω : Type} (f : Nat → Nat) (hf : ∀ a b, f a = f b → a = b) (prog : ρ → Prog ω)
+    (h : List (Entry × ρ)) (e : Entry) (rq : ρ) :
+    (compile (fun r => (prog r).mapLit f) e (after (fun r => (prog r).mapLit f) h init) rq).1 =
+      (compile prog e (after prog h init) rq).1 := by
+  have h1 := after_mapLit hf prog h init
+  have hinit : mapState f init = init := rfl
+  rw [hinit] at h1
+  rw [h1, compile_mapLit hf]
+
+example : (compile (fun r => (convProg r).mapLit (fun n => 2 * n + 3)) .main init (1, 5)).1 = some [501, 1005, 1005] := by decide
 
 /-- the only user of `random` is the hill-climb allocator, and `allocate` re-seeds it with a constant at every call -/
 theorem hillclimb_random_is_seeded :
